@@ -181,7 +181,7 @@ CHECKS = {
          'with zero, huge, exactly-to-2^64 and overflowing lengths; set_words inside / straddling / wrapping / with bad items; '
          'get_word / set_word at the same addresses; run with ring lengths 0/1/3/-1/2^62, start_ip 0/1/w/2^64-1 and device callbacks '
          'that poke the memory, add segments, re-init the object (also with rejected arguments) or run recursively; set_words with a sequence whose item access runs / re-initialises / extends the memory being loaded (F23); __init__ on a live object, accepted and rejected; 5000 descending '
-         'segments) for 7 constructor configurations (32 thorough; depth >= 3 for two of them, ten in thorough), depth 3 as (program load, run, anything) and (program load, rejected re-init, anything), depth 4 as (load, run, late add_segment, accessor / run); an ownership probe compares the reference counts of every argument object before / after ~30 call shapes (depth 4 thorough), plus '
+         'segments) for 7 constructor configurations (32 thorough; depth >= 3 for two of them, six in thorough), depth 3 as (program load, run, anything) and (program load, rejected re-init, anything), depth 4 as (load, run, late add_segment, accessor / run); an ownership probe compares the reference counts of every argument object before / after ~30 call shapes (depth 4 thorough), plus '
          'slices of the C01 / C07 / C19 drivers and .fjm files with adversarial segment tables - all on a clang '
          '-fsanitize=address,undefined build loaded with LD_PRELOAD: no sanitizer report, normal worker exit.',
          'As strong as the sanitizers on the explored sequences; reference-count leaks are not detected. Most workers use a 2^16-word flat window (FLIPJUMP_FLAT_MAX_WORDS) to keep the 64 MB default-window fill out of the per-run cost; one worker keeps the real default.',
